@@ -85,8 +85,10 @@ class ABCPropertyGraph(ABCPropertyGraphConstants):
         "reservation_info": ABCPropertyGraphConstants.PROP_RESERVATION_INFO,
         "site": ABCPropertyGraphConstants.PROP_SITE,
         "location": ABCPropertyGraphConstants.PROP_LOCATION,
-        # note lack of image type in this mapping
+        # image reference and type are stored together: unsetting either removes the pair
         "image_ref": ABCPropertyGraphConstants.PROP_IMAGE_REF,
+        "image_type": ABCPropertyGraphConstants.PROP_IMAGE_REF,
+        "stitch_node": ABCPropertyGraphConstants.PROP_STITCH_NODE,
         "management_ip": ABCPropertyGraphConstants.PROP_MGMT_IP,
         "allocation_constraints": ABCPropertyGraphConstants.PROP_ALLOCATION_CONSTRAINTS,
         "service_endpoint": ABCPropertyGraphConstants.PROP_SERVICE_ENDPOINT,
